@@ -791,5 +791,195 @@ Section Write.
         exists bl', sz', (VPtr lbi 0), (VInt (Z.of_nat (length l))), bufblk'. rewrite app_nil_r. cbn [app].
         split; [reflexivity|exact Y2].
     Qed.
+
+    Lemma wm_upd_log bufblk s lg lg' : upd (wm bufblk s lg) kl (enc_log lg') = wm bufblk s lg'.
+    Proof.
+      pose proof ks_lt. pose proof kl_lt. apply nth_error_ext_w. intro k.
+      rewrite nth_error_upd_if by (rewrite wm_length; unfold bb; lia). rewrite !wm_nth.
+      destruct (Nat.eqb k kl); reflexivity.
+    Qed.
+    (* ftruncate(fd, sz) *)
+    Lemma trunc_call bufblk s lg sz :
+      call X_ftruncate [VInt fd; VInt sz] (wm bufblk s lg) = Ok (VInt 0, wm bufblk s (lg ++ [EvTrunc fd sz])).
+    Proof.
+      unfold call. rewrite callx_S, x_ftruncate_none, ext_trunc. unfold sys_trunc.
+      rewrite (proj2 (wm_world bufblk s lg)). rewrite <- (wm_upd_log bufblk s lg (lg ++ [EvTrunc fd sz])).
+      rewrite enc_log_app. cbn [enc_log flat_map enc_ev app]. reflexivity.
+    Qed.
+
+    (* if (buf_len > 0 && write_fully(fd, buf, buf_len) < 0) return 1; ftruncate(fd, sz); return 0; *)
+    Lemma wr_tail_ok pend bufblk s lg sz i v8 v9 f2 : buf_ok bufblk pend -> (length s + 2 <= fuel)%nat ->
+      let '(ev, ok, r) := wa_run fd (lines_out BATCH pend []) s in
+      exec call f2 wr_tail (wr_st (Z.of_nat (length pend)) sz i v8 v9 (wm bufblk s lg))
+      = OReturn (VInt (if ok then 0 else 1))
+                (wr_st (Z.of_nat (length pend)) sz i v8 v9 (wm bufblk r (lg ++ ev ++ if ok then [EvTrunc fd sz] else []))).
+    Proof.
+      intros (Hlen & Hin & H256) Hf.
+      assert (Hpl : Z.of_nat (length pend) <= 4096) by (destruct Hin as [_ H]; lia).
+      assert (Nb : bb <> ks /\ bb <> kl) by (pose proof ks_lt; pose proof kl_lt; unfold bb; lia).
+      cbn [lines_out]. unfold wr_tail, wr_st; cbn [fn_body cf_lbuf_wr]. xstep. change (wrap I64 0) with 0.
+      destruct (Nat.ltb_spec 0 (length pend)) as [H0|H0].
+      - destruct (Z.ltb_spec 0 (Z.of_nat (length pend))); [|lia]. xstep. cbn [wa_run].
+        pose proof (wf_call bb bufblk pend bufblk s lg (wm_buf _ _ _) (proj1 Nb) (proj2 Nb) Hin H256 ltac:(lia) Hf) as X.
+        destruct (wf_run fd pend s) as [[ev ok] r]. unfold call. rewrite X. xstep. change (wrap I64 0) with 0. destruct ok.
+        + destruct (Z.ltb_spec (Z.of_nat (length pend)) 0); [lia|]. xstep. fold call. rewrite trunc_call. xstep.
+          rewrite app_nil_r, <- app_assoc. reflexivity.
+        + cbn [Z.ltb Z.compare]. xstep. rewrite app_nil_r. reflexivity.
+      - destruct (Z.ltb_spec 0 (Z.of_nat (length pend))); [lia|]. xstep. cbn [wa_run]. fold call. rewrite trunc_call. xstep. reflexivity.
+    Qed.
+
+    Lemma slice_step i : (i < en)%nat ->
+      firstn (en - i) (skipn i lines) = nthl lines i :: firstn (en - S i) (skipn (S i) lines).
+    Proof.
+      intro Hi. replace (en - i)%nat with (S (en - S i)) by lia.
+      rewrite (skipn_cons_nth_error lines i (nthl lines i)) by (unfold nthl; apply nth_error_nth'; lia). reflexivity.
+    Qed.
+
+    (* the loop over the lines, then the final flush and the truncation *)
+    Lemma wr_loop_ok : forall k (i : nat) pend bufblk s lg sz v8 v9 fuel' fuel2,
+      (en - i = k)%nat -> buf_ok bufblk pend ->
+      0 <= sz /\ sz + Z.of_nat (length (concat (firstn (en - i) (skipn i lines)))) <= 4611686018427387904 ->
+      (length s + 2 <= fuel)%nat -> (k + 1 <= fuel')%nat ->
+      let ls := firstn (en - i) (skipn i lines) in
+      let '(ev, ok, r) := wa_run fd (lines_out BATCH pend ls) s in
+      exists st' bufblk',
+        match exec call fuel' wr_for (wr_st (Z.of_nat (length pend)) sz (Z.of_nat i) v8 v9 (wm bufblk s lg)) with
+        | ONormal st1 => exec call fuel2 wr_tail st1
+        | o => o
+        end = OReturn (VInt (if ok then 0 else 1)) st'
+        /\ memm st' = wm bufblk' r (lg ++ ev ++ if ok then [EvTrunc fd (sz + Z.of_nat (length (concat ls)))] else []).
+    Proof.
+      induction k as [|k IH]; intros i pend bufblk s lg sz v8 v9 fuel' fuel2 Hk Hbuf Hsz Hf Hf' ls;
+        (destruct fuel' as [|fuel']; [lia|]).
+      - (* no line left *)
+        unfold ls. rewrite Hk. cbn [firstn concat length]. rewrite Z.add_0_r.
+        pose proof (wr_tail_ok pend bufblk s lg sz (Z.of_nat i) v8 v9 fuel2 Hbuf Hf) as X.
+        destruct (wa_run fd (lines_out BATCH pend []) s) as [[ev ok] r].
+        unfold wr_for; cbn [fn_body cf_lbuf_wr]. rewrite exec_for. unfold wr_st at 1. xstep.
+        destruct (Z.ltb_spec (Z.of_nat i) (Z.of_nat en)); [lia|]. xstep. fold (wr_st (Z.of_nat (length pend)) sz (Z.of_nat i) v8 v9 (wm bufblk s lg)).
+        rewrite X. eexists; exists bufblk. split; reflexivity.
+      - (* line i *)
+        assert (Hi : (i < en)%nat) by lia. unfold ls. rewrite (slice_step i Hi) in *. cbn [lines_out concat] in *.
+        rewrite app_length in Hsz. rewrite wa_run_app.
+        pose proof (wr_body_ok i pend bufblk s lg sz v8 v9 (S fuel') ltac:(lia) Hbuf ltac:(lia) Hf) as X. cbv zeta in X.
+        pose proof (wa_run_sched_le fd (snd (line_out BATCH pend (nthl lines i))) s) as Hle.
+        destruct (wa_run fd (snd (line_out BATCH pend (nthl lines i))) s) as [[ev1 ok1] r1]. cbn [snd] in Hle.
+        destruct X as (bl' & sz' & v8' & v9' & bufblk1 & X & Y).
+        unfold wr_for; cbn [fn_body cf_lbuf_wr].
+        match goal with |- context [SFor ?c ?stp ?b] => change b with wr_body end. remember wr_body as B eqn:EB.
+        rewrite exec_for. unfold wr_st at 1. xstep.
+        destruct (Z.ltb_spec (Z.of_nat i) (Z.of_nat en)); [|lia]. xstep.
+        fold (wr_st (Z.of_nat (length pend)) sz (Z.of_nat i) v8 v9 (wm bufblk s lg)).
+        subst B. rewrite X. destruct ok1.
+        + destruct (Y eq_refl) as (-> & -> & Hbuf1). unfold wr_st. xstep. rewrite chk_I32 by lia. xstep.
+          replace (Z.of_nat i + 1) with (Z.of_nat (S i)) by lia.
+          set (pend1 := fst (line_out BATCH pend (nthl lines i))) in *.
+          specialize (IH (S i) pend1 bufblk1 r1 (lg ++ ev1) (sz + Z.of_nat (length (nthl lines i))) v8' v9' fuel' fuel2
+                         ltac:(lia) Hbuf1 ltac:(lia) ltac:(lia) ltac:(lia)). cbv zeta in IH.
+          destruct (wa_run fd (lines_out BATCH pend1 (firstn (en - S i) (skipn (S i) lines))) r1) as [[ev2 ok2] r2].
+          destruct IH as (st' & bufblk' & IH1 & IH2). unfold wr_for, wr_st in IH1; cbn [fn_body cf_lbuf_wr] in IH1.
+          unfold wr_body, wr_for; cbn [fn_body cf_lbuf_wr]. rewrite IH1. exists st', bufblk'. split; [reflexivity|]. rewrite IH2. rewrite <- !app_assoc.
+          rewrite app_length, Nat2Z.inj_add, Z.add_assoc. reflexivity.
+        + eexists; exists bufblk1. split; [reflexivity|]. cbn [memm wr_st]. rewrite app_nil_r. reflexivity.
+    Qed.
+
+    (* lbuf_wr(lb, fd, beg, end) on the C text, under any schedule *)
+    Theorem tr_lbuf_wr_sec : (length s0 + 2 <= fuel)%nat -> (en - beg + 2 <= fuel)%nat ->
+      let ls := IoDefs.slice beg en lines in
+      let '(ev, ok, r) := wa_run fd (lines_out BATCH [] ls) s0 in
+      exists bufblk',
+        callx ext cprog fuel (S (S (S d))) F_lbuf_wr [VPtr lb 0; VInt fd; VInt (Z.of_nat beg); VInt (Z.of_nat en)] m0
+        = Ok (VInt (if ok then 0 else 1),
+              wm bufblk' r (lg0 ++ ev ++ if ok then [EvTrunc fd (Z.of_nat (length (concat ls)))] else [])).
+    Proof.
+      intros Hf Hf' ls.
+      assert (Hb0 : buf_ok (repeat VUndef 4096) []).
+      { split; [apply repeat_length|]. split; [split; [reflexivity|rewrite repeat_length; cbn; lia]|constructor]. }
+      assert (Hcat : Z.of_nat (length (concat (firstn (en - beg) (skipn beg lines)))) <= Z.of_nat (length (concat lines))).
+      { rewrite <- (firstn_skipn beg lines) at 2. rewrite concat_app, app_length.
+        rewrite <- (firstn_skipn (en - beg) (skipn beg lines)) at 2. rewrite concat_app, app_length. lia. }
+      pose proof (wr_loop_ok (en - beg) beg [] (repeat VUndef 4096) s0 lg0 0 VUndef VUndef fuel fuel eq_refl Hb0 ltac:(lia) Hf ltac:(lia)) as X.
+      cbv zeta in X. unfold ls, IoDefs.slice.
+      destruct (wa_run fd (lines_out BATCH [] (firstn (en - beg) (skipn beg lines))) s0) as [[ev ok] r].
+      destruct X as (st' & bufblk' & X1 & X2). exists bufblk'.
+      enterx F_lbuf_wr cf_lbuf_wr. xstep. rewrite malloc_ok by lia. xstep. change (Z.to_nat 4096) with 4096%nat.
+      rewrite wm_start. change (wrap I64 0) with 0.
+      unfold wr_for, wr_tail, wr_st, call, bb in X1; cbn [fn_body cf_lbuf_wr length] in X1. change (Z.of_nat 0) with 0 in X1.
+      rewrite X1. rewrite X2. reflexivity.
+    Qed.
   End Wr.
 End Write.
+
+(* ------------------------------------------------------------------ the statements in the model's own terms *)
+(* the kernel oracle answers X_write / X_ftruncate as the theorems require *)
+Lemma sys_is_write ks kl args m : sys ks kl X_write args m = sys_write ks kl args m.
+Proof. unfold sys. rewrite Nat.eqb_refl. reflexivity. Qed.
+Lemma sys_is_trunc ks kl args m : sys ks kl X_ftruncate args m = sys_trunc kl args m.
+Proof. unfold sys. replace (Nat.eqb X_ftruncate X_write) with false by (vm_compute; reflexivity). rewrite Nat.eqb_refl. reflexivity. Qed.
+
+(* an oracle that is the kernel of the model on write(2) and ftruncate(2) *)
+Definition kernel_oracle (ext : nat -> list val -> mem -> res (val * mem)) (ks kl : nat) : Prop :=
+  ks <> kl /\ (forall args m, ext X_write args m = sys_write ks kl args m) /\
+  (forall args m, ext X_ftruncate args m = sys_trunc kl args m).
+Lemma sys_kernel ks kl : ks <> kl -> kernel_oracle (sys ks kl) ks kl.
+Proof. intro H. split; [exact H|]. split; [apply sys_is_write|apply sys_is_trunc]. Qed.
+
+(* write_fully against IoDefs.write_fully: the same bytes reach the file, the same schedule is left, the result is sz or -1 *)
+Theorem tr_write_fully_model ext ks kl fd b o (blk : block) (p : bytes) s lg m d fuel :
+  kernel_oracle ext ks kl -> world_at ks kl m s lg -> nth_error m b = Some blk -> b <> ks -> b <> kl ->
+  0 <= o -> bytes_in blk (Z.to_nat o) p -> bytes_lt256 p -> Z.of_nat (length p) <= 4611686018427387904 ->
+  (length s + 2 <= fuel)%nat ->
+  exists ev, let '(w, ok, r) := IoDefs.write_fully p s in
+    callx ext cprog fuel (S (S d)) F_lbuf_write_fully [VInt fd; VPtr b o; VInt (Z.of_nat (length p))] m
+    = Ok (VInt (if ok then Z.of_nat (length p) else -1), set_world ks kl m r (lg ++ ev)) /\ reached ev = w.
+Proof.
+  intros (K1 & K2 & K3) Hw Hb N1 N2 Ho Hp H256 Hsz Hf.
+  pose proof (tr_write_fully ext ks kl K1 K2 K3 fd b o blk p s lg m d fuel Hw Hb N1 N2 Ho Hp H256 Hsz Hf) as X.
+  pose proof (wf_run_model fd p s) as Y. destruct (wf_run fd p s) as [[ev ok] r]. exists ev. rewrite Y. split; [exact X|reflexivity].
+Qed.
+
+(* lbuf_wr against IoDefs.lbuf_wr + IoDefs.write_all: the payloads of the model, written in order under the schedule;
+   0 is returned iff no payload failed, and then the log ends with ftruncate(fd, wsz) *)
+Theorem tr_lbuf_wr ext ks kl m lb bln lbs lines fd beg en s lg d fuel :
+  kernel_oracle ext ks kl -> world_at ks kl m s lg -> lines_at ks kl m lb bln lbs lines ->
+  (en <= length lines)%nat -> Z.of_nat (length lines) <= 2147483647 ->
+  Z.of_nat (length (concat lines)) <= 4611686018427387904 ->
+  (length s + 2 <= fuel)%nat -> (en - beg + 2 <= fuel)%nat ->
+  let w := IoDefs.lbuf_wr lines beg en in
+  let '(ev, ok, r) := wa_run fd (IoDefs.outp w) s in
+  exists bufblk',
+    callx ext cprog fuel (S (S (S d))) F_lbuf_wr [VPtr lb 0; VInt fd; VInt (Z.of_nat beg); VInt (Z.of_nat en)] m
+    = Ok (VInt (if ok then 0 else 1),
+          wm ks kl m bufblk' r (lg ++ ev ++ if ok then [EvTrunc fd (Z.of_nat (IoDefs.wsz w))] else [])).
+Proof.
+  intros (K1 & K2 & K3) Hw Hl He Hs Ht Hf Hf' w.
+  destruct (lbuf_wr_out lines beg en) as [E1 E2]. unfold w. rewrite E1, E2.
+  exact (tr_lbuf_wr_sec ext ks kl K1 K2 K3 m lb bln lbs lines fd beg en d fuel s lg Hw Hl He Hs Ht Hf Hf').
+Qed.
+
+(* ... and in the terms of C03: the bytes that reached the file and the unused schedule are IoDefs.write_all's, the
+   return value is 0 exactly when no outcome the run consumed was an error *)
+Theorem tr_lbuf_wr_faults ext ks kl m lb bln lbs lines fd beg en s lg d fuel :
+  kernel_oracle ext ks kl -> world_at ks kl m s lg -> lines_at ks kl m lb bln lbs lines ->
+  (en <= length lines)%nat -> Z.of_nat (length lines) <= 2147483647 ->
+  Z.of_nat (length (concat lines)) <= 4611686018427387904 ->
+  (length s + 2 <= fuel)%nat -> (en - beg + 2 <= fuel)%nat ->
+  let w := IoDefs.lbuf_wr lines beg en in
+  let '(dd, ok, r) := IoDefs.write_all (IoDefs.outp w) s in
+  exists ev bufblk' used,
+    callx ext cprog fuel (S (S (S d))) F_lbuf_wr [VPtr lb 0; VInt fd; VInt (Z.of_nat beg); VInt (Z.of_nat en)] m
+    = Ok (VInt (if ok then 0 else 1),
+          wm ks kl m bufblk' r (lg ++ ev ++ if ok then [EvTrunc fd (Z.of_nat (IoDefs.wsz w))] else [])) /\
+    reached ev = dd /\ s = used ++ r /\ (ok = false <-> In IoDefs.OErr used).
+Proof.
+  intros K Hw Hl He Hs Ht Hf Hf' w.
+  pose proof (tr_lbuf_wr ext ks kl m lb bln lbs lines fd beg en s lg d fuel K Hw Hl He Hs Ht Hf Hf') as X. cbv zeta in X. fold w in X.
+  pose proof (wa_run_model fd (IoDefs.outp w) s) as Y. pose proof (wa_run_ok_iff fd (IoDefs.outp w) s) as Z.
+  destruct (wa_run fd (IoDefs.outp w) s) as [[ev ok] r]. rewrite Y. destruct X as (bufblk' & X). destruct Z as (used & Z1 & Z2).
+  exists ev, bufblk', used. split; [exact X|]. split; [reflexivity|]. split; assumption.
+Qed.
+
+(* ------------------------------------------------------------------ helpers for examples: a small memory *)
+(* the log block of a memory, and a struct lbuf block whose ln field points to block bln *)
+Definition log_of (m : mem) (kl : nat) : block := match nth_error m kl with Some b => b | None => [] end.
+Definition lbuf_block (bln : nat) : block := repeat (VInt 0) 64 ++ [VPtr bln 0] ++ repeat (VInt 0) 10.
